@@ -432,6 +432,22 @@ def _as_built(ses, v):
     return ses.codec.to_tagged(built[1])
 
 
+def _ancestor_union_values(ses, t):
+    """A member declared with a union that extends others also holds instances of every ancestor union, however far up
+    (the value carries one of the tags the declared union inherits): one value per ancestor class."""
+    from stone.ir import Union, unwrap
+    dt = unwrap(t)[0]
+    out = []
+    if isinstance(dt, Union):
+        anc = dt.parent_type
+        while anc is not None:
+            v = ses.gen.valid_union(anc, 3)
+            if v is not None:
+                out.append(v)
+            anc = anc.parent_type
+    return out
+
+
 def suite_assign(ck, sessions, n_values, judge=True):
     """setattr / getattr / del on generated struct instances, union constructors: real vs model,
     and (judge) real vs the reference predicate."""
@@ -452,6 +468,7 @@ def suite_assign(ck, sessions, n_values, judge=True):
                         if vals:
                             vals += invalidate(ses.gen, f.data_type, vals[0])[:n_values + 2]
                         vals.append(ses.gen.junk())
+                        vals += _ancestor_union_values(ses, f.data_type)
                         vals = [_as_built(ses, v) for v in vals]
                         for v in vals:
                             ops.append({'op': 'rt.set', 'obj': ['S', ref, []], 'field': f.name, 'v': v})
@@ -467,6 +484,7 @@ def suite_assign(ck, sessions, n_values, judge=True):
                     if vals and not isinstance(f.data_type, Void):
                         vals += invalidate(ses.gen, f.data_type, vals[0])[:n_values + 1]
                     vals.append(ses.gen.junk())
+                    vals += _ancestor_union_values(ses, f.data_type)
                     vals = [_as_built(ses, v) for v in vals]
                     for v in vals:
                         ops.append({'op': 'rt.mkunion', 'cls': ref, 'tag': f.name, 'v': v})
@@ -577,6 +595,30 @@ def classified_mutations(ses, t, doc, rng, depth=0, top=False):
             out.append((['s', 'q' * (core_t.max_length + 1)], 'reject', 'string too long'))
         if core_t.min_length:
             out.append((['s', 'q' * (core_t.min_length - 1)], 'reject', 'string too short'))
+        if core_t.pattern:
+            # the pattern must cover the WHOLE string: a line feed after (or before) a matching text is not covered
+            import re as _re
+            for extra, why in ((doc[1] + '\n', 'trailing line feed after a string that matches the pattern'),
+                               ('\n' + doc[1], 'leading line feed before a string that matches the pattern')):
+                try:
+                    if _re.fullmatch(core_t.pattern, extra) is None and \
+                            (core_t.max_length is None or len(extra) <= core_t.max_length):
+                        out.append((['s', extra], 'reject', why))
+                except _re.error:
+                    pass
+    elif k == 'ts' and doc[0] == 's':
+        # texts of the ISO 8601 family that are NOT in the declared format (reference: strptime with that format)
+        import datetime as _dt
+        t0 = doc[1]
+        for cand in (t0[:-1] + '.250Z' if t0.endswith('Z') else t0 + '.250', t0[:10] + 'Z', t0.replace('T', ' '),
+                     t0.replace('-', '').replace(':', ''), t0[:-1] + '+05:00Z' if t0.endswith('Z') else t0 + '+05:00',
+                     t0 + ' ', ' ' + t0):
+            if cand == t0:
+                continue
+            try:
+                _dt.datetime.strptime(cand, core_t.format)
+            except ValueError:
+                out.append((['s', cand], 'reject', 'timestamp text that is not in the declared format'))
     elif k == 'list' and doc[0] == 'a':
         items = doc[1]
         if core_t.max_items is not None and items:
@@ -1071,6 +1113,26 @@ def json_equiv(a, b):
     return a == b
 
 
+def _boolify(v, in_list):
+    """(value with ['i', 0/1] items of lists replaced by ['b', False/True], anything replaced?)"""
+    k = v[0]
+    if k == 'i' and in_list and v[1] in (0, 1):
+        return ['b', bool(v[1])], True
+    if k in ('l', 'u'):
+        out = [_boolify(x, True) for x in v[1]]
+        return [k, [a for a, _ in out]], any(c for _, c in out)
+    if k == 'd':
+        out = [(a, _boolify(b, in_list)) for a, b in v[1]]
+        return ['d', [[a, b] for a, (b, _) in out]], any(c for _, (_b, c) in out)
+    if k == 'S':
+        out = [(a, _boolify(b, False)) for a, b in v[2]]
+        return ['S', v[1], [[a, b] for a, (b, _) in out]], any(c for _, (_b, c) in out)
+    if k == 'U':
+        b, c = _boolify(v[3], False)
+        return ['U', v[1], v[2], b], c
+    return v, False
+
+
 def suite_wire(ck, sessions, n_values, judge=True):
     for ses in sessions:
         cases = []
@@ -1087,6 +1149,13 @@ def suite_wire(ck, sessions, n_values, judge=True):
                 if built[0] != 'ok':
                     continue
                 cases.append((label, ir, irt, validator, built[1], ses.codec.to_tagged(built[1])))
+                # the same value with Python booleans where a list holds the integers 0 / 1: a bool is an int in
+                # Python and is valid for an integer type; the wire form is still a JSON number
+                tvb, changed = _boolify(tv, False)
+                if changed:
+                    builtb = outcome(lambda: ses.codec.build_checked(tvb))
+                    if builtb[0] == 'ok':
+                        cases.append((label, ir, irt, validator, builtb[1], ses.codec.to_tagged(builtb[1])))
         ops = [{'op': 'rt.wire', 'ty': c[2], 'v': c[5]} for c in cases]
         if callers:
             ops += [{'op': 'rt.enc', 'ty': c[2], 'v': c[5], 'perms': callers, 'redact': False} for c in cases]
